@@ -187,7 +187,7 @@ def run(ctx):
         f = fns.get(name)
         if f is None:
             raise AnalysisIncomplete("anchor vanished: %s" % name)
-        rets = [f.canon(f.ch(r)[0], subst=False, casts=True) for r in f.find("Return") if not f.canon(f.ch(r)[0], subst=False).endswith("->zero")]
+        rets = [f.canon(f.ch(r)[0], subst=True, casts=True) for r in f.find("Return") if not f.canon(f.ch(r)[0], subst=False).endswith("->zero")]     # a named intermediate reads as what it holds
         # rename the parameters to the canonical names used in the patterns
         norm = []
         for rv in rets:
